@@ -145,6 +145,8 @@ func (self *visitorUserNode) decode(bytes []byte, desc *proto.TypeDescriptor) ([
 		convDesc := desc.Message()
 		self.stk[self.sp].state = visitorUserNodeState{msgDesc: convDesc, fieldDesc: nil, lenPos: -1}
 		self.stk[self.sp].typ = objStkType
+	default:
+		return nil, newError(meta.ErrUnsupportedType, "the root descriptor must be messageType", nil)
 	}
 	str := rt.Mem2Str(bytes)
 	if err := ast.Preorder(str, self, nil); err != nil {
@@ -166,6 +168,33 @@ func (self *visitorUserNode) incrSP() error {
 		return fmt.Errorf("reached max depth: %d", len(self.stk))
 	}
 	return nil
+}
+
+// valueDesc gets the FieldDescriptor of the JSON value being visited:
+//  1. the member of a Message or the value of a Map pair, saved in globalFieldDesc by OnObjectKey;
+//  2. the element of a List (inList is true), whose ListDescriptor is on the top of stack.
+//
+// A scalar, object or array anywhere else (e.g. the root is not a JSONObject) can't be converted.
+func (self *visitorUserNode) valueDesc() (fieldDesc *proto.FieldDescriptor, inList bool, err error) {
+	if self.globalFieldDesc != nil {
+		return self.globalFieldDesc, false, nil
+	}
+	if top := &self.stk[self.sp]; top.typ == arrStkType {
+		return top.state.fieldDesc, true, nil
+	}
+	return nil, false, newError(meta.ErrDismatchType, "unexpected json value", nil)
+}
+
+// scalarDesc is valueDesc for a JSON scalar, which can be neither a List nor a Map nor a Message
+func (self *visitorUserNode) scalarDesc() (*proto.FieldDescriptor, error) {
+	fieldDesc, inList, err := self.valueDesc()
+	if err != nil {
+		return nil, err
+	}
+	if (fieldDesc.IsList() && !inList) || fieldDesc.IsMap() || fieldDesc.Kind() == proto.MessageKind {
+		return nil, newError(meta.ErrDismatchType, fmt.Sprintf("field '%s' isn't scalar type", fieldDesc.Name()), nil)
+	}
+	return fieldDesc, nil
 }
 
 func (self *visitorUserNode) OnNull() error {
@@ -195,12 +224,13 @@ func (self *visitorUserNode) OnBool(v bool) error {
 		return nil
 	}
 
-	var err error
-	top := self.stk[self.sp]
-	fieldDesc := self.globalFieldDesc
 	// case PackedList(List bool), get fieldDescriptor from Stack
-	if self.globalFieldDesc == nil && top.typ == arrStkType {
-		fieldDesc = top.state.fieldDesc
+	fieldDesc, err := self.scalarDesc()
+	if err != nil {
+		return err
+	}
+	if fieldDesc.Kind() != proto.BoolKind {
+		return newError(meta.ErrDismatchType, "param isn't boolType", nil)
 	}
 
 	// packed list no need to write tag
@@ -226,11 +256,9 @@ func (self *visitorUserNode) OnString(v string) error {
 		self.inskip = false
 		return nil
 	}
-	var err error
-	top := self.stk[self.sp].state.fieldDesc
-	fieldDesc := self.globalFieldDesc
-	if fieldDesc == nil && top != nil && top.Type().IsList() {
-		fieldDesc = top
+	fieldDesc, err := self.scalarDesc()
+	if err != nil {
+		return err
 	}
 
 	if err = self.p.AppendTagByKind(fieldDesc.Number(), fieldDesc.Kind()); err != nil {
@@ -265,12 +293,10 @@ func (self *visitorUserNode) OnInt64(v int64, n json.Number) error {
 		self.inskip = false
 		return nil
 	}
-	var err error
-	top := self.stk[self.sp]
-	fieldDesc := self.globalFieldDesc
 	// case PackedList(List<int32/int64/...), get fieldDescriptor from Stack
-	if self.globalFieldDesc == nil && top.typ == arrStkType {
-		fieldDesc = top.state.fieldDesc
+	fieldDesc, err := self.scalarDesc()
+	if err != nil {
+		return err
 	}
 
 	// packed list no need to write tag
@@ -360,12 +386,9 @@ func (self *visitorUserNode) OnFloat64(v float64, n json.Number) error {
 		self.inskip = false
 		return nil
 	}
-	var err error
-	top := self.stk[self.sp]
-	fieldDesc := self.globalFieldDesc
-
-	if self.globalFieldDesc == nil && top.typ == arrStkType {
-		fieldDesc = top.state.fieldDesc
+	fieldDesc, err := self.scalarDesc()
+	if err != nil {
+		return err
 	}
 
 	// packed list no need to write tag
@@ -432,36 +455,39 @@ func (self *visitorUserNode) OnObjectBegin(capacity int) error {
 	if self.inskip {
 		return ast.VisitOPSkip
 	}
-	var err error
-	fieldDesc := self.globalFieldDesc
-	top := self.stk[self.sp]
 	curNodeLenPos := -1
 
 	// case List<Message>, get fieldDescriptor
-	if self.globalFieldDesc == nil && top.typ == arrStkType {
-		fieldDesc = top.state.fieldDesc
+	fieldDesc, inList, err := self.valueDesc()
+	if err != nil {
+		// root layer, the MessageDescriptor has been saved by decode()
+		if self.sp == 0 && self.stk[0].state.msgDesc != nil {
+			return nil
+		}
+		return err
 	}
 
-	if fieldDesc != nil {
-		if fieldDesc.Type().IsMap() {
-			// case Map, push MapDesc
-			if err = self.push(true, false, false, fieldDesc, curNodeLenPos); err != nil {
-				return err
-			}
-		} else {
-			// case Message, encode Tag、PrefixLen, push MessageDesc、PrefixLen
-			if err = self.p.AppendTag(fieldDesc.Number(), proto.BytesType); err != nil {
-				return meta.NewError(meta.ErrWrite, "append prefix tag failed", nil)
-			}
-			self.p.Buf, curNodeLenPos = binary.AppendSpeculativeLength(self.p.Buf)
-			if err = self.push(false, true, false, fieldDesc, curNodeLenPos); err != nil {
-				return err
-			}
-		}
-		// the pending field is now described by the frame on the stack; leaving it set would make
-		// the members (or the end) of this object be taken for the value of that field
-		self.globalFieldDesc = nil
+	if (fieldDesc.IsList() && !inList) || (!fieldDesc.IsMap() && fieldDesc.Kind() != proto.MessageKind) {
+		return newError(meta.ErrDismatchType, fmt.Sprintf("field '%s' is neither messageType nor mapType", fieldDesc.Name()), nil)
 	}
+	if fieldDesc.Type().IsMap() {
+		// case Map, push MapDesc
+		if err = self.push(true, false, false, fieldDesc, curNodeLenPos); err != nil {
+			return err
+		}
+	} else {
+		// case Message, encode Tag、PrefixLen, push MessageDesc、PrefixLen
+		if err = self.p.AppendTag(fieldDesc.Number(), proto.BytesType); err != nil {
+			return meta.NewError(meta.ErrWrite, "append prefix tag failed", nil)
+		}
+		self.p.Buf, curNodeLenPos = binary.AppendSpeculativeLength(self.p.Buf)
+		if err = self.push(false, true, false, fieldDesc, curNodeLenPos); err != nil {
+			return err
+		}
+	}
+	// the pending field is now described by the frame on the stack; leaving it set would make
+	// the members (or the end) of this object be taken for the value of that field
+	self.globalFieldDesc = nil
 	return err
 }
 
@@ -618,20 +644,25 @@ func (self *visitorUserNode) OnArrayBegin(capacity int) error {
 	}
 	var err error
 	curNodeLenPos := -1
-	if self.globalFieldDesc != nil {
-		// PackedList: encode Tag、Len
-		if self.globalFieldDesc.Type().IsPacked() {
-			if err = self.p.AppendTag(self.globalFieldDesc.Number(), proto.BytesType); err != nil {
-				return meta.NewError(meta.ErrWrite, "append prefix tag failed", nil)
-			}
-			self.p.Buf, curNodeLenPos = binary.AppendSpeculativeLength(self.p.Buf)
-		}
-		if err = self.push(false, false, true, self.globalFieldDesc, curNodeLenPos); err != nil {
-			return err
-		}
-		// the elements take their descriptor from the frame on the stack
-		self.globalFieldDesc = nil
+	// a JSONArray must be the value of a List field, it can't be the root or an element of another JSONArray
+	if self.globalFieldDesc == nil {
+		return newError(meta.ErrDismatchType, "unexpected json array", nil)
 	}
+	if !self.globalFieldDesc.IsList() {
+		return newError(meta.ErrDismatchType, fmt.Sprintf("field '%s' isn't listType", self.globalFieldDesc.Name()), nil)
+	}
+	// PackedList: encode Tag、Len
+	if self.globalFieldDesc.Type().IsPacked() {
+		if err = self.p.AppendTag(self.globalFieldDesc.Number(), proto.BytesType); err != nil {
+			return meta.NewError(meta.ErrWrite, "append prefix tag failed", nil)
+		}
+		self.p.Buf, curNodeLenPos = binary.AppendSpeculativeLength(self.p.Buf)
+	}
+	if err = self.push(false, false, true, self.globalFieldDesc, curNodeLenPos); err != nil {
+		return err
+	}
+	// the elements take their descriptor from the frame on the stack
+	self.globalFieldDesc = nil
 	return err
 }
 
